@@ -873,8 +873,8 @@ return 1;""",
             self.need_numpy = True
         helpers = getattr(stmts, name + "_helper", None)
         if helpers:
-            helpers = wformat(helpers, fmt)
             for i, helper in enumerate(helpers.split()):
+                helper = typemap.flatten_name(wformat(helper, fmt))
                 setattr(fmt, "hnamefunc" + str(i),
                         self.add_helper(helper))
         # update_code_blocks
@@ -974,8 +974,10 @@ return 1;""",
     def set_fmt_hnamefunc(self, blk, fmt):
         """process helper functions from py_statements.c_helper"""
         if blk.c_helper:
-            c_helper = wformat(blk.c_helper, fmt)
-            for i, helper in enumerate(c_helper.split()):
+            # Split before formatting: a type may have several words
+            # ("unsigned short"); helpers are named by the flat name.
+            for i, helper in enumerate(blk.c_helper.split()):
+                helper = typemap.flatten_name(wformat(helper, fmt))
                 setattr(fmt, "hnamefunc" + str(i),
                     self.add_helper(helper))
 
